@@ -236,7 +236,7 @@ func paramClass(text string) string {
 func c10Body(c *core.Ctx) {
 	vexec.Init()
 	gen := GenOpts{MaxN: 6, Retries: true, Preconds: true, ContinueOn: true, Failures: true, MaxActive: true, Handlers: true}
-	n := c.Pick(500, 12000)
+	n := c.Pick(2500, 20000)
 	if c.Mode != "controlled" {
 		n = c.Pick(60, 1500)
 	}
